@@ -162,3 +162,25 @@ def parse_line(l):
         return {'kind': 'OTHER', 'ty': '?', 'op': '?', 'args': [], 'impl': '?', 'want': '?', 'line': l}
     ws = m.group(2).split()
     return {'kind': m.group(1), 'ty': ws[0], 'op': ws[1], 'args': ws[2:], 'impl': m.group(3), 'want': m.group(4), 'line': l}
+
+
+def _o15(f):
+    p = subprocess.run(['python3-vt', os.path.join(VERIF, 'checklib/oracle15.py')], stdin=open(f), stdout=subprocess.PIPE, stderr=subprocess.PIPE, text=True)
+    return p.stdout.splitlines(), p.returncode, p.stderr[-300:]
+
+def oracle15(res, tag):
+    """C15: certified-by-recomputation oracle (mpmath, 400 bits) over the recorded implementation results"""
+    d = os.path.join(WORK, 'runs', tag)
+    files = sorted(os.path.join(d, f) for f in os.listdir(d) if f.startswith('out_'))
+    res['ulp'] = []; res['oracle15'] = {'n': 0, 'over': 0, 'maxulp': {}}
+    with concurrent.futures.ThreadPoolExecutor(max_workers=NCPU) as ex:
+        for lines, rc, err in ex.map(_o15, files):
+            if rc != 0: res['ulp'].append('ULP p32 oracle crash => ? correct=%s' % err.replace('\n', ' '))
+            for l in lines:
+                if l.startswith('ULP '): res['ulp'].append(l)
+                elif l.startswith('SUMMARY15'):
+                    kv = dict(x.split('=', 1) for x in l.split()[1:3])
+                    res['oracle15']['n'] += int(kv['n']); res['oracle15']['over'] += int(kv['over'])
+                    for it in l.split('maxulp=')[1].split():
+                        k, v = it.split(':'); res['oracle15']['maxulp'][k] = max(res['oracle15']['maxulp'].get(k, 0), int(v))
+    return res
